@@ -254,3 +254,86 @@ RUN_SHAPES = {
     'fail_cmd': FAIL_CMD,
     'join_fed_by_error': JOIN_FED_BY_ERROR,
 }
+
+
+# data flow: root publishes x and z, branch b republishes x, branch c
+# publishes y (different variables in the parallel branches: no conflict)
+DATA_FLOW = """
+version: '2.0'
+wf:
+  input:
+    - inp: I
+  output:
+    x: <% $.x %>
+    y: <% $.get(y, none) %>
+    z: <% $.z %>
+    seen: <% $.get(seen_x, none) %>
+  tasks:
+    a:
+      action: std.noop
+      publish:
+        x: from_a
+        z:
+          k1: a1
+          k2: a2
+      on-success: [b, c]
+    b:
+      action: std.noop
+      publish:
+        x: from_b
+        z:
+          k1: b1
+      on-success: j
+    c:
+      action: std.noop
+      publish:
+        y: from_c
+      publish-on-error:
+        y: c_failed
+      on-complete: j
+    j:
+      join: all
+      action: std.noop
+      publish:
+        seen_x: <% $.x %>
+        seen_y: <% $.y %>
+        seen_z: <% $.z %>
+        seen_inp: <% $.inp %>
+"""
+
+DATA_FLOW_3 = """
+version: '2.0'
+wf:
+  output:
+    p: <% $.p %>
+    q: <% $.q %>
+    r: <% $.r %>
+  tasks:
+    a:
+      action: std.noop
+      publish:
+        p: p_a
+        q: q_a
+        r: r_a
+      on-success: [b, c, d]
+    b:
+      action: std.noop
+      publish:
+        p: p_b
+      on-success: j
+    c:
+      action: std.noop
+      publish:
+        q: q_c
+      on-success: j
+    d:
+      action: std.noop
+      on-success: j
+    j:
+      join: all
+      action: std.noop
+      publish:
+        got: <% [$.p, $.q, $.r] %>
+"""
+
+DATA_SHAPES = {'data_flow': DATA_FLOW, 'data_flow_3': DATA_FLOW_3}
